@@ -45,6 +45,11 @@ func (f *CallNextMethod) Call(s *slip.Scope, args slip.List, depth int) slip.Obj
 	if loc == nil {
 		slip.ErrorPanic(s, depth, "%s called outside an around method qualifier.", f.Name)
 	}
+	if len(args) == 0 {
+		// Called without arguments the next method gets the arguments the
+		// current method was called with.
+		args = loc.Args
+	}
 	if !loc.HasNext() {
 		nnm := slip.MustFindFunc("no-next-method")
 		gf := slip.MustFindFunc(loc.Method.Name)
